@@ -393,7 +393,7 @@ func validate(c Case) {
 				switch op.K {
 				case "H":
 					holes++
-				case "N", "eof", "new", "ctx", "wrap", "join", "same", "st", "cls":
+				case "N", "eof", "new", "ctx", "wrap", "join", "same", "st", "cls", "ctext":
 				default:
 					panic("bad operand " + op.K)
 				}
